@@ -234,6 +234,7 @@ class Controller:
         self.free = False
         self.abort = False
         self.auto = False
+        self.started = False             # did the code under test start a writer thread?
         self.progress = 0
         self.exc: Dict[str, BaseException] = {}
         self.names: Dict[int, str] = {}
@@ -363,6 +364,7 @@ class ShimThreading:
                     ctl_.finish("W")
 
             def start(self):
+                ctl_.started = True
                 self._t.start()
 
             def is_alive(self):
@@ -514,19 +516,29 @@ def run_sched_case(case: Dict[str, Any]) -> Dict[str, Any]:
     obs: Dict[str, Any] = {"status": "stuck", "warn": 0, "wdead": 0, "trace": [], "files": [], "rexc": None,
                            "wexc": None}
     try:
-        md = E["LoggingMetadata"]()
-        dc = dcm.DataCollection("c", base, "run", md)
-        ctl.names[id(dc.write_to_disk)] = "td"
-        ctl.names[id(dc.write_finished)] = "fin"
-        ctl.wait_arrival()                       # the writer is parked at its first gate
+        # set-up; an exception of the code under test here is an observation (the session "raised"), never a crash
         dsets = []
-        for i, d in enumerate(case["ds"]):
-            types = [2147483647] if d["types"] == "A" else [TYPE_IDS[t] for t in d["types"]]
-            ds = E["DataSet"]("c", f"ds{i}", f"ds{i}", "f", E["get_formatter"](d["fmt"]), d["interval"], types, md)
-            _wrap(ctl, ds, i)
-            dc.add_data_set(ds)
-            dsets.append(ds)
-        dc.start()
+        try:
+            md = E["LoggingMetadata"]()
+            dc = dcm.DataCollection("c", base, "run", md)
+            ctl.names[id(dc.write_to_disk)] = "td"
+            ctl.names[id(dc.write_finished)] = "fin"
+            if ctl.started:
+                ctl.wait_arrival()                   # the writer is parked at its first gate (or has ended)
+            for i, d in enumerate(case["ds"]):
+                types = [2147483647] if d["types"] == "A" else [TYPE_IDS[t] for t in d["types"]]
+                ds = E["DataSet"]("c", f"ds{i}", f"ds{i}", "f", E["get_formatter"](d["fmt"]), d["interval"], types, md)
+                _wrap(ctl, ds, i)
+                dc.add_data_set(ds)
+                dsets.append(ds)
+            dc.start()
+        except C.MachineryError:
+            raise
+        except Exception as e:  # noqa: BLE001
+            obs["status"] = "raise:" + type(e).__name__
+            obs["rexc"] = "during set-up (constructors / add_data_set / start): " + repr(e)
+            obs["wdead"] = 1 if ctl.at.get("W") == "finished" else 0
+            return obs
         # messages
         msgs: Dict[int, Any] = {}
         keys: Dict[Tuple[bytes, bytes], int] = {}
@@ -577,7 +589,7 @@ def run_sched_case(case: Dict[str, Any]) -> Dict[str, Any]:
         for i, d in enumerate(case["ds"]):
             ddir = os.path.join(base, "run", f"ds{i}")
             names = sorted(os.listdir(ddir)) if os.path.isdir(ddir) else []
-            ext = dsets[i].formatter_cls.ext
+            ext = E["get_formatter"](d["fmt"]).ext
             ordered = [n for n in names if n == "f" + ext] + sorted(n for n in names if n != "f" + ext)
             flist = []
             blist = []
@@ -600,7 +612,7 @@ def run_sched_case(case: Dict[str, Any]) -> Dict[str, Any]:
             obs.setdefault("fbytes", []).append(blist)
     finally:
         # tear down: unwind R if it is still inside stop(), let the writer run out
-        ctl.abort = ctl.at.get("R") != "finished"
+        ctl.abort = "R" in ctl.at and ctl.at["R"] != "finished"      # R was started and is parked inside an operation
         if ctl.abort:
             ctl.go["R"].release()
             ctl.wait_arrival()
@@ -608,10 +620,11 @@ def run_sched_case(case: Dict[str, Any]) -> Dict[str, Any]:
         ctl.free = True
         if dc is not None:
             dc._close = True
-            if ctl.at.get("W") != "finished":
+            if ctl.started and ctl.at.get("W") != "finished":
                 ctl.go["W"].release()
             try:
-                dc.write_thread.join(10)
+                if getattr(dc, "write_thread", None) is not None:
+                    dc.write_thread.join(10)
                 for ds in dc.datasets:
                     try:
                         ds.close()
